@@ -242,6 +242,20 @@ func (p *c20) posTemplate(i int) *gen.Template {
 		id := lead + "L" + g.u()
 		body = append(body, &gen.NText{S: id + ";", ID: id}, &gen.NComment{S: " c "}, &gen.NPrint{X: &gen.EName{Name: "v" + g.u()}})
 	}
+	if i%7 == 1 {
+		// far down and far to the right: line and column numbers beyond one and two bytes, after a text token
+		// longer than any buffer
+		nl := []int{255, 256, 257, 300, 1023, 1025, 4100, 65535, 65537}[g.r.Intn(9)]
+		if nl > 5000 && g.r.Intn(4) != 0 {
+			nl = 254 + g.r.Intn(4)
+		}
+		cols := []int{0, 254, 255, 256, 1022, 1023, 1024, 4095, 65535, 65536}[g.r.Intn(10)]
+		if cols > 5000 && g.r.Intn(4) != 0 {
+			cols = 1020 + g.r.Intn(8)
+		}
+		id := strings.Repeat("\n", nl) + strings.Repeat("x", cols) + "B" + g.u()
+		body = append(body, &gen.NText{S: id + ";", ID: id})
+	}
 	body = append(body, g.nodes(1+g.r.Intn(3), 2+g.r.Intn(5))...)
 	return &gen.Template{Name: "main", Body: body}
 }
